@@ -1229,6 +1229,24 @@ def C14(tier):
             bad = bad or 'an operation that timed out had an effect (len %d)' % len(c)
         for name, f in ops[:3]:
             f()
+        # with retry the call waits for the lock and then succeeds, value intact (file-backed and inline)
+        import threading
+        import time as _time
+        for name, big in (('retry-file', True), ('retry-inline', False)):
+            cases += 1
+            h4 = sqlite3.connect(d + '/c/cache.db', isolation_level=None, timeout=0, check_same_thread=False)
+            h4.execute('BEGIN IMMEDIATE')
+            t = threading.Timer(0.05, lambda: h4.execute('ROLLBACK'))
+            t.start()
+            val = b'r' * 700 if big else 7
+            ok = c.set(name, val, retry=True)
+            t.join()
+            h4.close()
+            if ok is not True or c.get(name) != val:
+                bad = bad or 'set(retry=True) under a temporarily held lock: returned %r, value read back %r' % (ok, (c.get(name) or b'')[:10])
+            w = [str(x.message) for x in c.check()]
+            if w:
+                bad = bad or 'after a retried write check() reports %r' % (w[:2],)
         # sharded cache: failures are reported through the return value
         fc = diskcache.FanoutCache(d + '/f', shards=1, timeout=0, disk_min_file_size=64)
         fc.set('k', 1)
